@@ -482,6 +482,9 @@ def conditions():
     # the AVCTP / AVDTP assemblers' hostile-input conditions live with their reassembly harnesses (C19) and count here too
     from vf.props import c19
     borrowed = [c for c in registered(c19.__name__) if c.name.split('@')[0].split('.')[0] in ('avctp_garbage_then_single', 'avdtp_broken_sequence_costs_one_message')]
+    # a controller-sent Number Of Completed Packets event naming unknown handles must not cost the live links their credits (C04 harness)
+    from vf.props import c04
+    borrowed += [c for c in registered(c04.__name__) if c.name.split('@')[0].split('.')[0] == 'host_completion_event']
     return registered(__name__) + _parser_conditions() + borrowed
 
 
